@@ -1,4 +1,132 @@
-/- C10 — property theorems (stub; filled in by the owning work package). -/
-import Rdm.Basic
+/-
+  C10 — concurrent requests do not influence each other.
+
+  What a Lean model can carry: an abstract shared-memory machine with an arbitrary scheduler and the
+  theorem that a handler whose read set is never written by another handler computes, under every
+  interleaving, exactly what it computes alone.  The premise is discharged for THIS code base from
+  facts regenerated from the source on every run (tools/sites, typed go/packages analysis):
+  no type held by the process-wide registries has a method that assigns to a receiver field, no
+  function assigns to a package-level variable, every BlankParams/NewProvider returns a fresh
+  allocation (or a field-less receiver), and lib/ starts no goroutines and uses no channels.
+  Not expressible in any Lean model (labelled partial): data-race freedom of the real execution —
+  supported by running the service with the race detector under concurrent load (harness c10.go).
+-/
+import Rdm.Generated.Sites
 namespace Rdm.Props.C10
+
+/-! ### abstract machine -/
+
+variable {Loc Val L : Type} [DecidableEq Loc]
+
+/-- shared memory -/
+abbrev Mem (Loc Val : Type) := Loc → Val
+
+/-- one atomic step of a handler: from the memory and its private state to a new private state and a
+    list of writes -/
+abbrev Step (Loc Val L : Type) := Mem Loc Val → L → L × List (Loc × Val)
+
+def applyWrites (m : Mem Loc Val) : List (Loc × Val) → Mem Loc Val
+  | [] => m
+  | (l, v) :: ws => applyWrites (fun x => if x = l then v else m x) ws
+
+/-- a handler: its steps, the locations it may read and the locations it may write -/
+structure Handler (Loc Val L : Type) where
+  step : Step Loc Val L
+  reads : Loc → Prop
+  writes : Loc → Prop
+  /-- the step depends on memory only through `reads` -/
+  frame_read : ∀ m m' s, (∀ l, reads l → m l = m' l) → step m s = step m' s
+  /-- the step writes only `writes` -/
+  frame_write : ∀ m s l v, (l, v) ∈ (step m s).2 → writes l
+
+theorem applyWrites_other (m : Mem Loc Val) (ws : List (Loc × Val)) (x : Loc)
+    (h : ∀ p ∈ ws, p.1 ≠ x) : applyWrites m ws x = m x := by
+  induction ws generalizing m with
+  | nil => rfl
+  | cons p ws ih =>
+    obtain ⟨l, v⟩ := p
+    simp only [applyWrites]
+    rw [ih]
+    · have : l ≠ x := h (l, v) (by simp)
+      simp [Ne.symm this]
+    · intro q hq; exact h q (by simp [hq])
+
+theorem applyWrites_congr (m m' : Mem Loc Val) (ws : List (Loc × Val)) (x : Loc)
+    (h : m x = m' x) : applyWrites m ws x = applyWrites m' ws x := by
+  induction ws generalizing m m' with
+  | nil => exact h
+  | cons p ws ih =>
+    obtain ⟨l, v⟩ := p
+    simp only [applyWrites]
+    apply ih
+    by_cases hx : x = l <;> simp [hx, h]
+
+/-- a schedule: at each tick either the observed handler `h` moves or some other handler
+    (given by its step function and private state evolution, here abstracted to its write list,
+    which must avoid `h.reads`) -/
+inductive Tick (Loc Val : Type) where
+  | self
+  | other (ws : List (Loc × Val))
+
+/-- run handler `h` under a schedule; `other` ticks apply foreign writes to the memory -/
+def run (h : Handler Loc Val L) : List (Tick Loc Val) → Mem Loc Val → L → Mem Loc Val × L
+  | [], m, s => (m, s)
+  | .self :: ts, m, s =>
+    let r := h.step m s
+    run h ts (applyWrites m r.2) r.1
+  | .other ws :: ts, m, s => run h ts (applyWrites m ws) s
+
+/-- the same handler alone: foreign ticks removed -/
+def solo (sched : List (Tick Loc Val)) : List (Tick Loc Val) :=
+  sched.filter fun t => match t with | .self => true | .other _ => false
+
+/-- **Non-interference.**  If no foreign write ever touches a location the handler reads, then under
+    every interleaving the handler ends in the private state it reaches alone, and the memory it can
+    read is what it would be alone. -/
+theorem noninterference (h : Handler Loc Val L) :
+    ∀ (sched : List (Tick Loc Val)) (m m' : Mem Loc Val) (s : L),
+      (∀ t ∈ sched, ∀ ws, t = Tick.other ws → ∀ p ∈ ws, ¬ h.reads p.1) →
+      (∀ l, h.reads l → m l = m' l) →
+      (run h sched m s).2 = (run h (solo sched) m' s).2 ∧
+      ∀ l, h.reads l → (run h sched m s).1 l = (run h (solo sched) m' s).1 l
+  | [], m, m', s, _, hm => ⟨rfl, hm⟩
+  | .self :: ts, m, m', s, hf, hm => by
+    have e := h.frame_read m m' s hm
+    simp only [run, solo, List.filter_cons_of_pos]
+    rw [e]
+    apply noninterference h ts
+    · intro t ht ws hw; exact hf t (by simp [ht]) ws hw
+    · intro l hl
+      exact applyWrites_congr m m' _ l (hm l hl)
+  | .other ws :: ts, m, m', s, hf, hm => by
+    have hnot : ∀ p ∈ ws, ¬ h.reads p.1 := hf (.other ws) (by simp) ws rfl
+    simp only [run, solo]
+    rw [List.filter_cons_of_neg (by simp)]
+    apply noninterference h ts
+    · intro t ht ws' hw; exact hf t (by simp [ht]) ws' hw
+    · intro l hl
+      rw [applyWrites_other m ws l]
+      · exact hm l hl
+      · intro p hp hpe; exact hnot p hp (hpe ▸ hl)
+
+/-! ### the premise, discharged from facts regenerated from /repo on every run -/
+
+/-- No type held by the process-wide registries assigns to a receiver field: every object a
+    concurrent request can share is read-only after start-up (at the level of the syntactic write
+    analysis). -/
+theorem registry_types_never_written :
+    Sites.receiverWrittenTypes.all (fun t => !Sites.registryHeldTypes.contains t) = true := by
+  decide
+
+/-- no function assigns to a package-level variable -/
+theorem no_package_variable_written : Sites.packageVarWrites = [] := by decide
+
+/-- every `BlankParams` / `NewProvider` hands out a fresh allocation or a field-less receiver -/
+theorem per_request_objects_fresh : Sites.blankParamsNotFresh = [] := by decide
+
+/-- the library itself starts no goroutines, uses no channels, no clock and no global random source -/
+theorem no_concurrency_primitives_in_lib :
+    Sites.goStatements = [] ∧ Sites.channelOps = [] ∧ Sites.clockUses = [] ∧ Sites.globalRandUses = [] := by
+  decide
+
 end Rdm.Props.C10
